@@ -15,13 +15,15 @@ import (
 func init() {
 	register(&Prop{
 		ID:          "C07",
-		Explanation: "Decides the wiring between stripping and injecting identity headers: NewRequestHeaderInjector gives the same configured header list to the strip builder and the injector builder and composes alice.New(strip, inject) in that order, dropping the strip stage only when the builder returned nil; the strip builder collects header.Name exactly for entries without PreserveRequestValue and returns nil only for an empty collection; the strip handler calls the canonicalising http.Header.Del on the request's header for every collected name unconditionally before calling next; the upstream handler and the auth-only 202 writer are used only as the argument of p.headersChain.Then (whose result is what serves the request), headersChain has one writer, the constructor, fed from buildHeadersChain = alice.New(request injector, response injector); every value written by the injectors derives only from session.GetClaim(...), configured secret bytes, configured prefixes and constants, never from a header read; GetClaim returns no values for a nil session; the inject handlers inject scope.Session into the request's (response's) own header map before next; the legacy conversion sets PreserveRequestValue = !SkipAuthStripHeaders for every element after the last append; claim injectors add a header only on paths where the claim value itself was tested non-empty; getRequestHeaders adds each legacy header group exactly on the paths whose tested flags ask for it (PassBasicAuth||PassUserHeaders -> user headers, PassAccessToken, PassAuthorization, PassBasicAuth&&password -> basic-auth header). Added during the build: a claim source injects only non-empty claim values and the legacy flags map to the documented header groups (R6). GetClaim answers each claim name from the session field of that name only (R7); with request signing configured the upstream proxy overwrites GAP-Auth from its own response header before every hand-off (R8). Round 4: the session the injectors read is this request's own — bearer claims decoded into a per-invocation object, and a request that waited for the refresh lock continues with the reloaded session (R9, shared with C04.R8 and C12.R2). Round 5: the operator's injected-header configuration is read-only between option loading and the injector builders (R10). Round 6: the option loader's viper switches are a reviewed closed list with their constant arguments (R11). Round 7: request handling keeps no state of its own between requests — no store, map update, in-place builtin, atomic/sync.Map write or pointer-receiver library call (singleflight, caches) reached from ServeHTTP targets a package-level variable, an object built at start-up, or a constructor variable captured by the handler it returned, declared in the packages implementing this property (RS; a class-wide who-may-write rule with zero instances today: a correct memoisation would be reported until reviewed). No reader of the session's group list filters, sorts or overwrites it in place (R12). Round 8: the structured configuration's injectRequestHeaders/injectResponseHeaders reach the options as a whole (R13).",
+		Explanation: "Decides the wiring between stripping and injecting identity headers: NewRequestHeaderInjector gives the same configured header list to the strip builder and the injector builder and composes alice.New(strip, inject) in that order, dropping the strip stage only when the builder returned nil; the strip builder collects header.Name exactly for entries without PreserveRequestValue and returns nil only for an empty collection; the strip handler calls the canonicalising http.Header.Del on the request's header for every collected name unconditionally before calling next; the upstream handler and the auth-only 202 writer are used only as the argument of p.headersChain.Then (whose result is what serves the request), headersChain has one writer, the constructor, fed from buildHeadersChain = alice.New(request injector, response injector); every value written by the injectors derives only from session.GetClaim(...), configured secret bytes, configured prefixes and constants, never from a header read; GetClaim returns no values for a nil session; the inject handlers inject scope.Session into the request's (response's) own header map before next; the legacy conversion sets PreserveRequestValue = !SkipAuthStripHeaders for every element after the last append; claim injectors add a header only on paths where the claim value itself was tested non-empty; getRequestHeaders adds each legacy header group exactly on the paths whose tested flags ask for it (PassBasicAuth||PassUserHeaders -> user headers, PassAccessToken, PassAuthorization, PassBasicAuth&&password -> basic-auth header). Added during the build: a claim source injects only non-empty claim values and the legacy flags map to the documented header groups (R6). GetClaim answers each claim name from the session field of that name only (R7); with request signing configured the upstream proxy overwrites GAP-Auth from its own response header before every hand-off (R8). Round 4: the session the injectors read is this request's own — bearer claims decoded into a per-invocation object, and a request that waited for the refresh lock continues with the reloaded session (R9, shared with C04.R8 and C12.R2). Round 5: the operator's injected-header configuration is read-only between option loading and the injector builders (R10). Round 6: the option loader's viper switches are a reviewed closed list with their constant arguments (R11). Round 7: request handling keeps no state of its own between requests — no store, map update, in-place builtin, atomic/sync.Map write or pointer-receiver library call (singleflight, caches) reached from ServeHTTP targets a package-level variable, an object built at start-up, or a constructor variable captured by the handler it returned, declared in the packages implementing this property (RS; a class-wide who-may-write rule with zero instances today: a correct memoisation would be reported until reviewed). No reader of the session's group list filters, sorts or overwrites it in place (R12). Round 8: the structured configuration's injectRequestHeaders/injectResponseHeaders reach the options as a whole (R13). Round 8 (class-wide, P12): in the packages implementing this property every named error result that is used at all is examined — compared with nil, returned, stored or handed to a non-formatting function — unless the code validates the value result instead (RE; zero instances today).",
 		NotDecided:  "per-option value tables of the legacy flags (which claims each flag maps to); header-name normalisation by upstream servers (underscore/dash); values produced by GetClaim for each claim name.",
 		Run:         runC07,
 	})
 }
 
 func runC07(c *Ctx) {
+	c.R.Rule("RE-errors-examined", "in the packages implementing this property every named error result that is used at all is examined, or the value is validated instead (P12, class-wide, round 8)", 1)
+	runErrorsExamined(c, "RE-errors-examined", "pkg/header")
 	c.R.Rule("RS-no-request-time-state", "request handling writes no state that outlives the request (package-level variables, objects built at start-up, constructor variables captured by handlers) declared in the packages implementing this property", 1)
 	runStateless(c, "RS-no-request-time-state", "pkg/header", "pkg/middleware")
 	r := c.R
